@@ -1,6 +1,7 @@
 package main
 
 import (
+	"go/constant"
 	"fmt"
 	"go/ast"
 	"go/token"
@@ -193,32 +194,50 @@ func c07R1(p *Prog, r *Report) {
 
 func c07R2(p *Prog, r *Report) {
 	r.Rule("C07.R2", "refusal instead of dropping: in generator.ReturnError the test `check.Explicit && !check.ReturnError → return nil, false` is evaluated for a method before its ReturnError flag is set, and every caller of Generator.ReturnError turns a false result into a *builder.Error", 3)
-	fi, sf := needFunc(p, r, "generator.(*generator).ReturnError")
+	fi, _ := needFunc(p, r, "generator.(*generator).ReturnError")
 	if fi != nil {
-		// every store ReturnError=true is dominated by the false edge of the Explicit∧!ReturnError refusal: i.e. by the
-		// false edge of a load of Explicit, or the refusal return block is on the other side
+		// every store ReturnError=true (in ReturnError or a private helper of it) is dominated by the test of
+		// Explicit whose true side refuses: returns (nil, false) — or, in a helper, false, which the caller turns into (nil, false)
 		okAll, n := true, 0
-		allInstrs(sf, false, func(in ssa.Instruction) {
-			st, ok := in.(*ssa.Store)
-			if !ok {
-				return
+		isRefusal := func(ret *ssa.Return) bool {
+			if len(ret.Results) == 0 {
+				return false
 			}
-			fa, ok := st.Addr.(*ssa.FieldAddr)
-			if !ok || fieldName(fa) != "ReturnError" {
-				return
+			last := ret.Results[len(ret.Results)-1]
+			k, isK := last.(*ssa.Const)
+			if !isK || k.Value == nil || k.Value.Kind() != constant.Bool || constantBool(k) {
+				return false
 			}
-			n++
-			// there must be a refusal return (nil,false) in a block dominated by true(Explicit) whose If dominates this store
-			found := false
-			for _, b := range sf.Blocks {
-				for _, x := range b.Instrs {
-					ret, isRet := x.(*ssa.Return)
-					if !isRet || len(ret.Results) != 2 {
-						continue
-					}
-					if k, isK := ret.Results[1].(*ssa.Const); isK && !constantBool(k) && isNilConst(ret.Results[0]) {
+			for _, v := range ret.Results[:len(ret.Results)-1] {
+				if !isNilConst(v) {
+					return false
+				}
+			}
+			return true
+		}
+		for _, rf := range p.Region("generator.(*generator).ReturnError") {
+			sf := p.SSAFunc(rf)
+			if sf == nil {
+				continue
+			}
+			allInstrs(sf, false, func(in ssa.Instruction) {
+				st, ok := in.(*ssa.Store)
+				if !ok {
+					return
+				}
+				fa, ok := st.Addr.(*ssa.FieldAddr)
+				if !ok || fieldName(fa) != "ReturnError" {
+					return
+				}
+				n++
+				found := false
+				for _, b := range sf.Blocks {
+					for _, x := range b.Instrs {
+						ret, isRet := x.(*ssa.Return)
+						if !isRet || !isRefusal(ret) {
+							continue
+						}
 						if dominatedByEdge(b, true, func(c ssa.Value) bool { return loadsField(c, "Explicit") }) {
-							// the Explicit test block dominates the store
 							for d := b; d != nil; d = d.Idom() {
 								if ifi, ok := d.Instrs[len(d.Instrs)-1].(*ssa.If); ok && loadsField(ifi.Cond, "Explicit") && d.Dominates(st.Block()) {
 									found = true
@@ -227,11 +246,30 @@ func c07R2(p *Prog, r *Report) {
 						}
 					}
 				}
-			}
-			if !found {
-				okAll = false
-			}
-		})
+				if found && rf != fi {
+					// the helper's false must become (nil, false) in ReturnError
+					found = false
+					if asf := p.SSAFunc(fi); asf != nil {
+						for _, b := range asf.Blocks {
+							ret, isRet := b.Instrs[len(b.Instrs)-1].(*ssa.Return)
+							if !isRet || !isRefusal(ret) {
+								continue
+							}
+							for _, f := range factsAt(b) {
+								if nf, ok := f.(negFact); ok {
+									if c, ok := nf.Value.(*ssa.Call); ok && ssaCalleeObj(c) != nil && ssaCalleeObj(c).Origin() == rf.Obj.Origin() {
+										found = true
+									}
+								}
+							}
+						}
+					}
+				}
+				if !found {
+					okAll = false
+				}
+			})
+		}
 		if okAll && n > 0 {
 			r.OK("generator.(*generator).ReturnError/refuse before flip", p.PosStr(fi.Decl.Pos()), "the explicit-method refusal dominates the flag flip")
 		} else {
